@@ -2,7 +2,13 @@
 From Coq Require Import List Arith Reals PArith.
 Import ListNotations.
 From SymfcV Require Import Tuples Group Concrete SolverModel SumRule IPS.
+From SymfcG Require Import EigStruct.
 Local Open Scope nat_scope.
+
+(** structure of the sum-rule builders read off the source: every batch is processed (batches without rows are skipped
+    with `continue`, never `break`), contributions are accumulated, the result is I - A^T A / c *)
+Theorem c03_in_force : sumrule_batches_skip_empty_and_accumulate = true.
+Proof. reflexivity. Qed.
 
 (** Unit eigenvectors of the sum-rule matrix I - B^T B / c (c > 0) are exactly the solutions of B z = 0:
     nothing that violates a constraint row is kept, no solution is dropped. *)
